@@ -52,11 +52,11 @@ HAS_DRIVER = True
 EXTRA_MODULES = ['Spec.CycleBasis', 'Model.C06Rings']
 FINDINGS_MODULE = 'ChythonModel.Findings.C06'
 
-K_FIELDS = ['cc', 'ccns', 'skin', 'skinns', 'rc', 'ar', 'ars', 'marks']
+K_FIELDS = ['cc', 'ccns', 'skin', 'skinns', 'rc', 'ar', 'ars', 'arom', 'marks']
 PROGRAMS = ['MoleculeContainer.connected_components', 'rings._connected_components(not_special_connectivity)',
             'MoleculeContainer.skin_graph', 'rings._skin_graph(not_special_connectivity)', 'MoleculeContainer.rings_count',
             'MoleculeContainer.sssr', 'MoleculeContainer.atoms_rings', 'MoleculeContainer.atoms_rings_sizes',
-            'MoleculeContainer.calc_labels (ring marks)', 'rings._canonic_ring', 'rings._ring_scissors', 'rings._ring_adjacency']
+            'MoleculeContainer.calc_labels (ring marks)', 'MoleculeContainer.aromatic_rings', 'rings._canonic_ring', 'rings._ring_scissors', 'rings._ring_adjacency']
 
 
 def generate(ctx):
@@ -370,13 +370,14 @@ def exempt(gap, clause):
 # cases
 # ------------------------------------------------------------------------------------------------
 
-def graph_ints(n_atoms, edges, special=(), order=None, nbr_shuffle=None):
-    """wire ints of a carbon skeleton; `special` edges get order 8; `order` = atom insertion order"""
+def graph_ints(n_atoms, edges, special=(), order=None, nbr_shuffle=None, aromatic=()):
+    """wire ints of a carbon skeleton; `special` edges get order 8, `aromatic` edges order 4; `order` = atom insertion order"""
     verts = list(order) if order else list(range(1, n_atoms + 1))
     nb = {v: [] for v in verts}
     sp = {frozenset(e) for e in special}
+    ar = {frozenset(e) for e in aromatic}
     for a, b in edges:
-        o = 8 if frozenset((a, b)) in sp else 1
+        o = 8 if frozenset((a, b)) in sp else (4 if frozenset((a, b)) in ar else 1)
         nb[a].append((b, o))
         nb[b].append((a, o))
     out = [len(verts)]
@@ -456,6 +457,10 @@ def impl_fields(mol):
     f['ar'] = ';'.join(f'{n}:' + '/'.join(canon_ring(r) for r in sorted(tuple(r) for r in rs))
                        for n, rs in sorted(mol.atoms_rings.items()))
     f['ars'] = ';'.join(f'{n}:' + ','.join(map(str, sorted(s))) for n, s in sorted(mol.atoms_rings_sizes.items()))
+    try:
+        f['arom'] = '/'.join(canon_ring(r) for r in sorted(tuple(r) for r in mol.aromatic_rings))
+    except Exception:
+        f['arom'] = 'raise'
     mol.calc_labels()
     marks = []
     for n, ms in sorted(mol._bonds.items()):
@@ -787,12 +792,34 @@ def correspond(ctx):
             if (a, b) not in edges and (b, a) not in edges:
                 edges = edges + [(a, b)]
                 special = special + [(a, b)]
-        ints = graph_ints(n, edges, special)
+        p_ar = rng.choice([0, 0, 0.6, 1])   # order-4 bonds: none / most / all (whole rings become aromatic)
+        ints = graph_ints(n, edges, special, aromatic=[e for e in edges if rng.random() < p_ar])
         add('ring-assembly', ints)
         add('ring-assembly-renumbered', renumbered_ints(rng, ints))
 
-    # 4. repository molecules
-    mols = molgen.corpus(rng, 150 if ctx.quick else 4200) + molgen.handmade() + molgen.test_files()
+    # 4. repository molecules (the readers run ring perception themselves: loading is time limited too)
+    mols = []
+    smis = molgen.corpus_smiles()
+    for i in rng.sample(range(len(smis)), min(150 if ctx.quick else 4200, len(smis))):
+        if _timeouts['n'] >= 8:
+            break
+        try:
+            with time_limit(sssr_limit()):
+                m = molgen.parse(smis[i])
+        except TimeoutError:
+            _timeouts['n'] += 1
+            ctx.cov['disagreements_checked'] += 1
+            ctx.broke('relational', 'sssr-raises', f'corpus[{i}] {smis[i]}: the SMILES reader did not come back (ring perception hangs)')
+            continue
+        if m is not None:
+            mols.append((f'corpus[{i}]', m))
+    try:
+        with time_limit(120 if _timeouts['n'] == 0 else 10):
+            mols += molgen.handmade() + molgen.test_files()
+    except TimeoutError:
+        _timeouts['n'] += 1
+        ctx.cov['disagreements_checked'] += 1
+        ctx.broke('relational', 'sssr-raises', 'reading test/*.sdf did not come back (ring perception hangs)')
     for name, m in mols:
         try:
             ints = wire.mol_to_ints(m)
